@@ -18,6 +18,9 @@ func die(f string, a ...interface{}) {
 }
 
 func main() {
+	if v := os.Getenv("GOPT_REPEAT"); v != "" {
+		fmt.Sscan(v, &gh.Repeat)
+	}
 	if len(os.Args) < 2 {
 		die("usage: gopt families|enum|rand ...")
 	}
